@@ -787,7 +787,28 @@ func (p *parser) expectOp(s string) error {
 
 func (p *parser) parseQuant() (*Expr, error) {
 	t := p.peek()
+	isQuant := false
 	if t.k == "id" && (t.s == "forall" || t.s == "exists") {
+		// a Go variable may be called `exists`: it is a quantifier only if a `::` follows at this nesting level
+		depth := 0
+		for j := p.i + 1; j < len(p.toks); j++ {
+			q := p.toks[j]
+			if q.k == "op" && (q.s == "(" || q.s == "[") {
+				depth++
+			} else if q.k == "op" && (q.s == ")" || q.s == "]") {
+				depth--
+				if depth < 0 {
+					break
+				}
+			} else if q.k == "op" && q.s == "::" && depth == 0 {
+				isQuant = true
+				break
+			} else if q.k == "op" && (q.s == "&&" || q.s == "||" || q.s == "==>") && depth == 0 {
+				break
+			}
+		}
+	}
+	if isQuant {
 		p.next()
 		var vars []SpecParam
 		for {
@@ -871,13 +892,13 @@ func (p *parser) parseBin(level int) (*Expr, error) {
 		var rhs *Expr
 		if t.s == "==>" {
 			// right assoc, and allow a quantifier on the rhs
-			if q := p.peek(); q.k == "id" && (q.s == "forall" || q.s == "exists") {
+			if q := p.peek(); q.k == "id" && (q.s == "forall" || q.s == "exists") && p.quantAhead() {
 				rhs, err = p.parseQuant()
 			} else {
 				rhs, err = p.parseBin(level)
 			}
 		} else {
-			if q := p.peek(); q.k == "id" && (q.s == "forall" || q.s == "exists") {
+			if q := p.peek(); q.k == "id" && (q.s == "forall" || q.s == "exists") && p.quantAhead() {
 				rhs, err = p.parseQuant()
 			} else {
 				rhs, err = p.parseBin(level + 1)
@@ -1020,4 +1041,24 @@ func (p *parser) parsePrimary() (*Expr, error) {
 		}
 	}
 	return nil, fmt.Errorf("unexpected %q at %d", t.s, t.pos)
+}
+
+func (p *parser) quantAhead() bool {
+	depth := 0
+	for j := p.i + 1; j < len(p.toks); j++ {
+		q := p.toks[j]
+		if q.k == "op" && (q.s == "(" || q.s == "[") {
+			depth++
+		} else if q.k == "op" && (q.s == ")" || q.s == "]") {
+			depth--
+			if depth < 0 {
+				return false
+			}
+		} else if q.k == "op" && q.s == "::" && depth == 0 {
+			return true
+		} else if q.k == "op" && (q.s == "&&" || q.s == "||" || q.s == "==>") && depth == 0 {
+			return false
+		}
+	}
+	return false
 }
